@@ -21,3 +21,28 @@ CHECKS = {
         "note": "Trusts the 25-line oracle (DFS cycle test, position comparison). Maps over more than 5 modules are not explored; dict insertion order is fixed because any order is a relabelling inside the space.",
     },
 }
+
+CHECKS["C14"] = {
+    "level": "model_checking",
+    "technique": "explicit-state BFS over real PSyIR objects (worlds = seed tree x orphan pool; every child-list/Node editing operation with indices -5..5 from every reachable state; de-duplication on an identity-normalised fingerprint; invariant on every accepted transition, atomicity on every rejected one)",
+    "text": "After any sequence of public tree-editing operations every node's parent lists it exactly once and every child is of a kind valid at its position; an operation that raises leaves the tree exactly as it was. quick: 348 worlds, 10.9M transitions, 54k states (pool-free worlds to fixed point, pool 1 depth 3, pool 2 depth 2); thorough: 768 worlds, 99.6M transitions, 436k states. Exhaustive exploration of real objects is the right level because the defects are index/ordering slips that only specific operation sequences expose.",
+    "note": "Trusts the 40-line well-formedness/atomicity oracle and the fingerprint (creation-order ids). Bounded by the seed trees, the orphan pool and the depth per pool size. Five genuine defects found by this check were repaired (fix: commits, see known_findings.json).",
+}
+CHECKS["C16"] = {
+    "level": "model_checking",
+    "technique": "explicit-state BFS over real SymbolTable/ScopingNode objects (state = operation history replayed on fresh objects, de-duplicated on an identity-normalised fingerprint) against a dict-of-scopes reference model evaluated on every state and transition",
+    "text": "Eight operation alphabets over three nested scopes plus a spare table (names a/A/b/a_1/B, tags, 8 symbol kinds, 16 operation families incl. merge with skip lists, attach/detach, deep_copy) are explored exhaustively to history length 2-4 (quick: 11,860 states, 795,088 transitions) / 2-6 (thorough: 186,946 states, 7.7M transitions); every lookup, tag lookup, generated name, clash check and Routine copy is compared with an independent reading of the tables, and every rejected operation must leave all tables unchanged.",
+    "note": "Bounded: histories up to the stated lengths per alphabet, not their union at full depth; over-rejection is never judged. Four genuine atomicity/merge defects found by this check were repaired (fix: commits).",
+}
+CHECKS["C18"] = {
+    "level": "model_checking",
+    "technique": "bounded exhaustive enumeration of free-form line shapes x line limits run through the real FortLineLength; oracle = independent logical-line joiner (bound to gfortran parse-tree dumps and fparser's reader), length bound, idempotence, reference wrappability for refusals",
+    "text": "18 line heads x 3 indentations x separators x item patterns (<=2 quick, <=3 thorough) x 4 tails, stretched to 38..202 characters, x 33 (quick) / all 93 (thorough) limits 40..132: 2.24M / 92M (line, limit) pairs. Every output must respect the limit, join back to the same statements/directives/comments, and be a fixed point of a second pass.",
+    "note": "A clean InternalError on a line with no usable break character is an allowed refusal. The joiner is the trusted base; it is cross-checked against gfortran and fparser on a per-head subset in every run (disagreement = harness error). Three genuine defects found by this check were repaired (fix: commits).",
+}
+CHECKS["C17"] = {
+    "level": "model_checking",
+    "technique": "exhaustive enumeration of integer expression pairs (<=1 operator each; 2-operator left sides over reduced leaves) through the real SymbolicMaths.equal/never_equal/solve_equal_for/expand; every positive claim evaluated on all 729 valuations x 2 array contents by the E1 integer evaluator",
+    "text": "Every claim SymbolicMaths makes (equal, never equal, a finite solution set, an expansion) about a pair of the enumerated expressions is checked against Fortran integer semantics on every valuation of i,j,n in -4..4. A False/'independent' answer is a non-claim.",
+    "note": "Trusts E1's integer arithmetic (truncating division, MOD sign, MIN/MAX). Open finding C17-int-division-exact: claims that hold only if integer division were exact.",
+}
